@@ -104,6 +104,12 @@ def decorate_jobs(jobs, seed, prop):
         r = Rng(seed, prop, 'save-options', i)
         if prop != 'C04' and 'save_options' not in j['plan'] and j['plan'].get('profile') not in ('flow', 'describe') and r.chance(0.125):
             j['plan']['save_options'] = r.choice([1, 2])
+    # F-REUSE: a tenth of the API-built initial models are built in an object that loaded a file as terrain before
+    for i, j in enumerate(jobs):
+        init = j['plan'].get('init')
+        r = Rng(seed, prop, 'prior-terrain', i)
+        if isinstance(init, dict) and 'builder' in init and 'prior_terrain_load' not in init and r.chance(0.1):
+            init['prior_terrain_load'] = r.choice(['in/Static_SE', 'in/Skinned_OB', 'in/Static_FO4', 'in/Animated_LE'])
     # F-REUSE: in a fifth of the runs restarts load the saved file back into the NifFile object that wrote it
     for i, j in enumerate(jobs):
         if 'reuse_object' not in j['plan'] and Rng(seed, prop, 'reuse-object', i).chance(0.2):
